@@ -1,7 +1,7 @@
 (* C19 -- operation mode, export limit and DoD setters round-trip with their getters (encoder level: the full-time
    eco-mode groups; the setter / getter sequences are checked on the real classes against the simulated inverter). *)
 From Coq Require Import ZArith List Bool String.
-From GW Require Import Prelude PyStr PyFloat Sensors SensorProofs CodecProofs Settings TablesGen SettingsGen SettingsProofs Modes ModesGen ModesProofs.
+From GW Require Import Prelude PyStr PyFloat Sensors SensorProofs CodecProofs Settings TablesGen SettingsGen SettingsProofs Modes ModesGen ModesInst ModesProofs.
 Import ListNotations.
 Open Scope Z_scope.
 
